@@ -11,7 +11,8 @@ TrNext ==
   /\ l <= Len(Tr)
   /\ LET e == Tr[l]
          base == IF e.plain THEN e.r ELSE out0
-         bad == Failing(e, base)
+         \* (strings the parser rejects, or whose host is not a hostname, are outside the quantifier)
+         bad == IF ~InGrammar(EnsureProtocol(Clean(e.x), HTTPS)) THEN {} ELSE Failing(e, base)
      IN /\ out0' = base /\ u' = e.x /\ depth' = e.b
         /\ (IF bad = {} THEN TRUE ELSE PrintT(<<"VERDICT", e.id, bad, Triggers(e)>>))
         /\ (IF l < Len(Tr) THEN TRUE ELSE PrintT(<<"TRACE-DONE", l>>))
